@@ -50,6 +50,13 @@ CLAIMED = {
         "Trusts scipy HiGHS LP optima (1e-9); decisions within |margin| < 1e-6 of the boundary are tallied, not asserted.",
         "DESIGN.md section 6 C03",
     ),
+    "C04": (
+        "Hypothesis property-based testing against an active-set BVLS oracle and the HiGHS distance LP; constructed in/on/out-of-gamut and below-baseline targets; both solver settings named in the property",
+        "Generated well-scaled systems (1-5 x 1-8, all K/baseline/weight shapes, finite and default bounds) x constructed targets through lsq_linear and ReceptorEstimator.fit; "
+        "asserts no exception, bounds, optimality against BVLS in both directions, prediction = model, zero error iff in gamut, to the tolerances of the statement.",
+        "Trusts scipy BVLS (1e-12 on these sizes) and HiGHS; defects smaller than the stated solver accuracy are invisible; '1 % of the bound range' is read per system (largest range).",
+        "DESIGN.md section 6 C04",
+    ),
 }
 
 PENDING_REASON = "check not built yet in this revision (planned, see DESIGN.md section 6); not claimed until its check runs quietly on the unchanged tree"
